@@ -279,9 +279,9 @@ VARIABLES apid, aans, adone, abad
 avars == <<apid, aans, adone, abad>>
 Compare(p, a) ==
   LET r == Run(p, a) l == RunLowered(p, a) IN
-  IF r.status = "more" THEN {}
+  IF r.status \in {"more", "unmodelled"} \/ l.status = "unmodelled" THEN {}
   ELSE (IF Flat(l.ev) # Flat(r.ev) THEN {"Events"} ELSE {}) \cup (IF Outcome(l) # Outcome(r) THEN {"Outcome"} ELSE {})
-Idle == pid = 0 /\ ans = <<>> /\ done = TRUE /\ tid = 0 /\ bad = {}
+Idle == pid = 0 /\ ans = <<>> /\ done = "done" /\ tid = 0 /\ bad = {}
 AInit == /\ apid \in 1..Len(Progs) /\ aans = <<>> /\ adone = (Run(apid, <<>>).status # "more") /\ abad = Compare(apid, <<>>)
 ANext == /\ ~adone /\ Len(aans) < MaxD
          /\ LET m == Run(apid, aans) IN
